@@ -1,6 +1,7 @@
 import Mouette.Lemmas.C20SourceRun
 import Mouette.Lemmas.UnionFindC
 import Mouette.Lemmas.UFSourceComps
+import Mouette.Lemmas.UFSourceMapping
 import Mouette.Props.C20
 import Mouette.Props.C20Height
 /-!
@@ -403,6 +404,82 @@ theorem components_bridge {g : St} (h : IndxInv g) (inv : Inv g.toState) :
     rw [hcls e he, mem_setOf, hrs]
     exact List.mem_map.mpr ⟨e, he, rfl⟩
 
+/-! ## `component_mapping()` and `__setitem__` -/
+
+theorem cmFold_none : ∀ (l : List Nat), l.foldl C20.componentMappingFor1Step none = none := by
+  intro l
+  induction l with
+  | nil => rfl
+  | cons e l ih => rw [List.foldl_cons]; exact ih
+
+/-- the first loop of `component_mapping()`: the state is threaded through the `find`s (which only halve paths); the dict
+of sets is filled as by the pure fold `grpStep` keyed by the class root of the state the loop started in; nothing raises -/
+theorem cmFold_bridge {g0 : St} (inv0 : Inv g0.toState) : ∀ (l : List Nat) (g : St) (d : DictS),
+    IndxInv g → Inv g.toState → PEquiv g0.toState g.toState → (∀ e, e ∈ l → e ∈ g.elts) →
+    ∃ g', l.foldl C20.componentMappingFor1Step (some (g, d))
+        = some (g', l.foldl (grpStep (classOf g0.toState)) d) ∧
+      IndxInv g' ∧ g'.elts = g.elts ∧ Inv g'.toState ∧ PEquiv g0.toState g'.toState := by
+  intro l
+  induction l with
+  | nil => intro g d h inv pe _; exact ⟨g, rfl, h, rfl, inv, pe⟩
+  | cons e l ih =>
+    intro g d h inv pe hm
+    have he : e ∈ g.elts := hm e (List.mem_cons_self ..)
+    have he' : e ∈ g.toState.elts := he
+    obtain ⟨g1, r, f, m, i1, e1⟩ := find_some h he
+    obtain ⟨s', r', hf, inv1, pe1, hreach, _⟩ := find_spec inv he'
+    rw [m] at hf
+    injection hf with hf; injection hf with hs hr
+    subst hs hr
+    have hcls : r = classOf g0.toState e := by
+      have h1 : classOf g.toState e = r := (rootOf_eq_iff inv (idxOf_lt he') r).mpr hreach
+      have he0 : e ∈ g0.toState.elts := by rw [← pe.elts]; exact he'
+      rw [← h1, pe.classOf inv0 inv he0]
+    have hm1 : ∀ z, z ∈ l → z ∈ g1.elts := fun z hz => by rw [e1]; exact hm z (List.mem_cons_of_mem _ hz)
+    have step1 : C20.componentMappingFor1Step (some (g, d)) e = some (g1, grpStep (classOf g0.toState) d e) := by
+      simp only [C20.componentMappingFor1Step, f, grpStep, ← hcls]
+    rw [List.foldl_cons, List.foldl_cons, step1]
+    obtain ⟨g2, s2, i2, e2, inv2, pe2⟩ := ih g1 _ i1 inv1 (pe.trans pe1) hm1
+    exact ⟨g2, s2, i2, e2.trans e1, inv2, pe2⟩
+
+/-- BRIDGE for `component_mapping()` (translated as the two loops it is): on every state satisfying the invariant it does
+not raise, returns exactly the association list of the hand model `UF.componentMapping` - every stored element mapped to
+the members of its class - and only halves paths -/
+theorem component_mapping_bridge {g : St} (h : IndxInv g) (inv : Inv g.toState) :
+    ∃ g', C20.componentMapping g = some (g', (UF.componentMapping g.toState).2) ∧ IndxInv g' ∧ g'.elts = g.elts ∧
+      Inv g'.toState ∧ PEquiv g.toState g'.toState := by
+  obtain ⟨g1, s1, i1, e1, inv1, pe1⟩ := cmFold_bridge inv g.elts g [] h inv (PEquiv.refl _) (fun _ hz => hz)
+  refine ⟨g1, ?_, i1, e1, inv1, pe1⟩
+  obtain ⟨s', hc, _, _⟩ := UF.componentMapping_spec inv
+  have hnd : g.elts.Nodup := inv.nodup
+  have hp := componentMapping_pure (classOf g.toState) hnd
+  unfold C20.componentMapping
+  simp only [s1]
+  rw [hc]
+  exact congrArg (fun m => some (g1, m)) hp
+
+/-- `uf[i] = x`: IndexError exactly outside `0 <= i < len(_elts)`, otherwise the cell `i` of `_elts` is overwritten and
+NOTHING else changes (in particular not `_indx`) -/
+theorem setitem_bridge {g : St} (h : IndxInv g) (i x : Nat) :
+    C20.setitem g i x = if i < g.elts.length then some ({ g with elts := g.elts.set i x }, ()) else none := by
+  by_cases hi : i < g.elts.length
+  · have h1 : ¬ g.elts.length ≤ i := by omega
+    simp [C20.setitem, h.next, hi, h1]
+  · have h1 : g.elts.length ≤ i := by omega
+    simp [C20.setitem, h.next, hi, h1]
+
+/-- why `__setitem__` is not an operation of the histories the statement quantifies over: it overwrites the stored
+element without touching the dict `_indx`, so afterwards the new element is stored but "not in" the structure and the old
+one is "in" it but stored nowhere - the tie `IndxInv` between `_elts` and `_indx`, on which every bridge rests, is lost -/
+theorem setitem_breaks_indx :
+    ∃ g', C20.setitem (srcRun [.add 1]) 0 5 = some (g', ()) ∧ 5 ∈ g'.elts ∧ C20.contains g' 5 = false ∧
+      1 ∉ g'.elts ∧ C20.contains g' 1 = true ∧ ¬ IndxInv g' := by
+  refine ⟨_, rfl, by decide, by decide, by decide, by decide, ?_⟩
+  intro h
+  have := h.dmem_iff 5
+  revert this
+  decide
+
 /-! ## histories on the translated definitions -/
 
 theorem srcStep_bridge {g : St} (h : IndxInv g) (op : Op) :
@@ -720,6 +797,73 @@ theorem components_source (ops : List Op) :
 example : (C20.components (srcRun hist)).map (fun r => r.2.map List.length) = some [4, 1] ∨
     (C20.components (srcRun hist)).map (fun r => r.2.map List.length) = some [1, 4] := by decide
 
+/-- `component_mapping()` on the source, after ANY history: it does not raise, only halves paths, maps exactly the
+present elements, each to exactly the present elements joined to it by a chain of unions -/
+theorem component_mapping_source (ops : List Op) :
+    ∃ g' m, C20.componentMapping (srcRun ops) = some (g', m) ∧ PEquiv (srcRun ops).toState g'.toState ∧
+      (∀ x c, (x, c) ∈ m → x ∈ present ops ∧ ∀ e, e ∈ c ↔ (e ∈ present ops ∧ Joined ops e x)) ∧
+      (∀ x, x ∈ present ops → ∃ c, (x, c) ∈ m) ∧
+      (∀ x c c', (x, c) ∈ m → (x, c') ∈ m → c = c') := by
+  obtain ⟨t, i⟩ := srcRun_bridge ops
+  have inv := UF.inv_runC C20.sizCmp ops
+  have rf := refines_runC C20.sizCmp ops
+  rw [← t] at inv rf
+  obtain ⟨g', hc, _, _, _, pe⟩ := component_mapping_bridge i inv
+  obtain ⟨s', m, hm, _, _, hmem⟩ := Mouette.Props.C20.component_mapping_spec inv
+  have hcs : (UF.componentMapping (srcRun ops).toState).2 = m := by rw [hm]
+  rw [hcs] at hc
+  refine ⟨g', m, hc, pe, ?_, ?_, ?_⟩
+  · intro x c hxc
+    obtain ⟨hx, rfl⟩ := (hmem x c).mp hxc
+    refine ⟨(rf.mem x).mp hx, fun e => ?_⟩
+    rw [mem_classList]
+    constructor
+    · rintro ⟨he, hce⟩; exact ⟨(rf.mem e).mp he, (rf.cls e x he hx).mp hce⟩
+    · rintro ⟨he, hj⟩
+      have he' := (rf.mem e).mpr he
+      exact ⟨he', (rf.cls e x he' hx).mpr hj⟩
+  · intro x hx
+    exact ⟨_, (hmem x _).mpr ⟨(rf.mem x).mpr hx, rfl⟩⟩
+  · intro x c c' h1 h2
+    rw [((hmem x c).mp h1).2, ((hmem x c').mp h2).2]
+
+example : (C20.componentMapping (srcRun hist)).map (fun r => r.2.map (fun p => (p.1, p.2.length)))
+    = some [(1, 4), (2, 4), (3, 4), (4, 4), (9, 1)] := by decide
+
+/-- the three whole-structure views of the source describe THE SAME partition, after any history: the sets that
+`component_mapping()` maps elements to are exactly the buckets of `components()`, each element is mapped to the bucket it
+lies in, and the number of buckets is the number of distinct roots reported by `roots()` and the counter `n_comps` -/
+theorem views_agree_source (ops : List Op) :
+    ∃ g1 cs g2 m g3 rs, C20.components (srcRun ops) = some (g1, cs) ∧ C20.componentMapping (srcRun ops) = some (g2, m) ∧
+      C20.roots (srcRun ops) = some (g3, rs) ∧
+      (∀ x c, (x, c) ∈ m → c ∈ cs ∧ x ∈ c) ∧ (∀ c, c ∈ cs → ∀ x, x ∈ c → (x, c) ∈ m) ∧
+      cs.length = rs.length ∧ rs.length = (srcRun ops).nComps := by
+  obtain ⟨t, i⟩ := srcRun_bridge ops
+  have inv := UF.inv_runC C20.sizCmp ops
+  rw [← t] at inv
+  obtain ⟨g1, hc, _⟩ := components_bridge i inv
+  obtain ⟨g2, hm, _⟩ := component_mapping_bridge i inv
+  obtain ⟨g3, hr, _⟩ := roots_bridge i
+  obtain ⟨s1, e1, _, _⟩ := UF.components_spec inv
+  obtain ⟨s2, e2, _, _⟩ := UF.componentMapping_spec inv
+  have hrs : (rootsList (srcRun ops).toState).2 = (srcRun ops).toState.elts.map (classOf (srcRun ops).toState) :=
+    rootsList_snd inv
+  rw [e1] at hc
+  rw [e2] at hm
+  rw [hrs] at hr
+  refine ⟨g1, _, g2, _, g3, _, hc, hm, hr, ?_, ?_, ?_, ?_⟩
+  · intro x c hxc
+    obtain ⟨hx, rfl⟩ := (mem_componentMapping_list x c).mp hxc
+    refine ⟨List.mem_map.mpr ⟨_, ?_, rfl⟩, mem_classList.mpr ⟨hx, rfl⟩⟩
+    rw [List.mem_eraseDups]; exact List.mem_map.mpr ⟨x, hx, rfl⟩
+  · intro c hcm x hx
+    obtain ⟨r, _, rfl⟩ := List.mem_map.mp hcm
+    obtain ⟨hxe, hxr⟩ := mem_classList.mp hx
+    exact (mem_componentMapping_list x _).mpr ⟨hxe, by rw [hxr]⟩
+  · simp [setOf]
+  · show (setOf _).length = (srcRun ops).toState.nComps
+    rw [setOf, (eraseDups_roots_perm inv).length_eq, nComps_eq_rootIdxs inv]
+
 /-! ## descriptor tables -/
 
 /-- every attribute of a `UnionFind` is created by an assignment on `self` in `__init__`: instance state, nothing in the
@@ -727,18 +871,13 @@ class body -/
 theorem uf_attrs_are_instance_state :
     C20.initAttrs.map Prod.snd = List.replicate 7 AttrHome.instance ∧ C20.initAttrs.length = 7 := by decide
 
-/-- `find` and `component` raise `ValueError`, `__getitem__` raises `IndexError`, each of them does have a `raise`, and
-these are the only `raise` statements of the translated methods (however many guards each method spells them with) -/
+/-- `find` and `component` raise `ValueError`, `__getitem__` / `__setitem__` raise `IndexError`, each of them does have a
+`raise`, and these are the only `raise` statements of the translated methods (however many guards each spells them with) -/
 theorem raises_bridge :
     (∀ p, p ∈ C20.raisesTable → ((p.1 = "find" ∨ p.1 = "component") ∧ p.2 = PyExc.valueError) ∨
-      (p.1 = "getitem" ∧ p.2 = PyExc.indexError)) ∧
+      ((p.1 = "getitem" ∨ p.1 = "setitem") ∧ p.2 = PyExc.indexError)) ∧
     "find" ∈ C20.raisesTable.map Prod.fst ∧ "component" ∈ C20.raisesTable.map Prod.fst ∧
-    "getitem" ∈ C20.raisesTable.map Prod.fst := by decide
-
-/-- `component_mapping()`: elements grouped by their `find` into sets, every member mapped to its group -/
-theorem component_mapping_shape_bridge : C20.componentMappingShape =
-    ["v0 = {}", "for v1 in self._elts: ;     v0.setdefault(self.find(v1), set()).add(v1)", "v2 = {}",
-     "for v3 in v0.values(): ;     v2.update({v4: v3 for v4 in v3})", "return v2"] := rfl
+    "getitem" ∈ C20.raisesTable.map Prod.fst ∧ "setitem" ∈ C20.raisesTable.map Prod.fst := by decide
 
 open Mouette.PQ Mouette.BinHeap
 
